@@ -1,0 +1,97 @@
+//go:build verif
+
+package goja
+
+// Spec functions for typed arrays and DataViews (property C17).
+
+// specTABuf / specTAElemSize: ghost attributes of a typedArray accessor value — the buffer whose
+// bytes it reaches through unsafe pointer arithmetic, and its element width. Uninterpreted; tied
+// to the owning typedArrayObject by specTAWF.
+func specTABuf(t typedArray) *arrayBufferObject { return nil }
+func specTAElemSize(t typedArray) int            { return 0 }
+
+// specScale: n elements of width es in bytes (es is 1, 2, 4 or 8; kept linear for the solvers).
+func specScale(n, es int) int {
+	switch es {
+	case 1:
+		return n
+	case 2:
+		return 2 * n
+	case 4:
+		return 4 * n
+	}
+	return 8 * n
+}
+
+func specElemSizeOK(es int) bool { return es == 1 || es == 2 || es == 4 || es == 8 }
+
+// specTAWF: the representation invariant of a typed array object: its view lies inside the
+// buffer for as long as the buffer is attached.
+func specTAWF(ta *typedArrayObject) bool {
+	if ta == nil {
+		return true
+	}
+	b := ta.viewedArrayBuf
+	if b == nil || ta.typedArray == nil {
+		return false
+	}
+	if ta.offset < 0 || ta.length < 0 || !specElemSizeOK(ta.elemSize) {
+		return false
+	}
+	if ta.offset > 1<<48 || ta.length > 1<<48 {
+		return false
+	}
+	if specTABuf(ta.typedArray) != b || specTAElemSize(ta.typedArray) != ta.elemSize {
+		return false
+	}
+	if b.detached {
+		return len(b.data) == 0
+	}
+	return specScale(ta.offset+ta.length, ta.elemSize) <= len(b.data)
+}
+
+// specTAAccessOK: element idx (an index into the buffer in units of the element width, i.e.
+// offset+k) may be dereferenced: the buffer is attached and the element lies inside it.
+func specTAAccessOK(t typedArray, idx int) bool {
+	b := specTABuf(t)
+	return b != nil && !b.detached && idx >= 0 && specElemSizeOK(specTAElemSize(t)) &&
+		specScale(idx+1, specTAElemSize(t)) <= len(b.data)
+}
+
+// specDVWF: a DataView's window lies inside its buffer while the buffer is attached.
+func specDVWF(dv *dataViewObject) bool {
+	if dv == nil {
+		return true
+	}
+	b := dv.viewedArrayBuf
+	if b == nil || dv.byteOffset < 0 || dv.byteLen < 0 || dv.byteOffset > 1<<48 || dv.byteLen > 1<<48 {
+		return false
+	}
+	if b.detached {
+		return len(b.data) == 0
+	}
+	return dv.byteOffset+dv.byteLen <= len(b.data)
+}
+
+// specPrimitiveNumeric: converting v to a number cannot run script.
+func specPrimitiveNumeric(v Value) bool {
+	switch v.(type) {
+	case valueInt, valueFloat, *valueBigInt, valueBool, valueNull, valueUndefined:
+		return true
+	}
+	return false
+}
+
+func specIsBigInt(v Value) bool {
+	_, ok := v.(*valueBigInt)
+	return ok
+}
+
+// specSortCtxWF: the sort adapter re-validates the buffer after every comparator call; when it
+// believes the buffer is attached and needs no re-validation, it is attached.
+func specSortCtxWF(ctx *typedArraySortCtx) bool {
+	if ctx == nil || ctx.ta == nil || !specTAWF(ctx.ta) {
+		return false
+	}
+	return ctx.needValidate || ctx.detached || !ctx.ta.viewedArrayBuf.detached
+}
